@@ -338,6 +338,50 @@ theorem return_frees_node (cfg : Cfg) (hr : cfg.subNeverReturns = false) (p : Pr
       rw [nextTurn_subs, selectFlows_subs]
       exact hfree
 
+/-! ## taking turns neither drops nor invents a token -/
+
+/-- the tokens that travel on plus the tokens that still wait, after `nextTurn`, are exactly those before it -/
+theorem nextTurn_mem (s : St) (node : String) (out : List Tok) (x : Tok) :
+    (x ∈ (nextTurn s node out).1 ∨ x ∈ (nextTurn s node out).2.parked) ↔ (x ∈ out ∨ x ∈ s.parked) := by
+  unfold nextTurn
+  split
+  · exact Iff.rfl
+  · rename_i w hw
+    have hwm : w ∈ s.parked := List.mem_of_find?_eq_some hw
+    simp only [List.mem_append, List.mem_singleton, List.mem_filter]
+    constructor
+    · rintro ((h | h) | ⟨h, _⟩)
+      · exact Or.inl h
+      · subst h; exact Or.inr hwm
+      · exact Or.inr h
+    · rintro (h | h)
+      · exact Or.inl (Or.inl h)
+      · by_cases e : x = w
+        · exact Or.inl (Or.inr e)
+        · refine Or.inr ⟨h, ?_⟩
+          obtain ⟨f, nd⟩ := x
+          obtain ⟨g, md⟩ := w
+          simp only [bne, BEq.beq, instBEqTok.beq, Bool.not_eq_true', Bool.and_eq_false_iff, decide_eq_false_iff_not]
+          by_cases h1 : f = g
+          · right
+            intro h2
+            exact e (by rw [h1, h2])
+          · left; exact h1
+
+/-- the token that takes its turn was waiting AT THAT NODE -/
+theorem nextTurn_node (s : St) (node : String) (out : List Tok) (x : Tok)
+    (hx : x ∈ (nextTurn s node out).1) (hout : x ∉ out) : x.node = node ∧ x ∈ s.parked := by
+  unfold nextTurn at hx
+  split at hx
+  · exact absurd hx hout
+  · rename_i w hw
+    rcases List.mem_append.mp hx with h | h
+    · exact absurd h hout
+    · have : x = w := by simpa using h
+      subst this
+      have := List.find?_some hw
+      exact ⟨by simpa using this, List.mem_of_find?_eq_some hw⟩
+
 /-! ## the history of D43, in the model -/
 
 /-- a parallel fork sends two tokens into ONE sub-process node (task `T` inside), task `C` behind it -/
